@@ -273,13 +273,13 @@ func loadPlan(path string) *Plan {
 		Plan *Plan `json:"plan"`
 	}
 	if err := json.Unmarshal(b, &rf); err == nil && rf.Plan != nil {
-		return rf.Plan
+		return rf.Plan.Clone()
 	}
 	var p Plan
 	if err := json.Unmarshal(b, &p); err != nil {
 		panic(err)
 	}
-	return &p
+	return p.Clone()
 }
 
 type ReplayOut struct {
